@@ -1701,6 +1701,15 @@ impl FileClusterFrontendConfig {
             }
         };
 
+        // A certificate without its key (or a key without certificate) cannot
+        // serve TLS: `populate_clusters` would create an HTTPS listener for the
+        // address while `generate_requests` registers a plain-HTTP frontend on
+        // it, i.e. a frontend without listener. Reject the pair at load time.
+        if key_opt.is_some() != certificate_opt.is_some() {
+            let missing = if key_opt.is_none() { "key" } else { "certificate" };
+            return Err(ConfigError::Missing(MissingKind::Field(missing.to_string())));
+        }
+
         let path = match (self.path.as_ref(), self.path_type.as_ref()) {
             (None, _) => PathRule::prefix("".to_string()),
             (Some(s), Some(PathRuleType::Prefix)) => PathRule::prefix(s.to_string()),
